@@ -196,6 +196,8 @@ def sha(lines):
 
 def corpus(pid):
     out = []
+    if os.environ.get("VERIF_CORPUS", "1") == "0":
+        return out
     for path in sorted(glob.glob(os.path.join(VERIF, "corpus", pid, "*.json"))):
         d = json.load(open(path))
         s = Scenario.from_json(d)
